@@ -19,7 +19,7 @@ CASE_TIMEOUT = 60
 SHRINK_BUDGET = 60
 THEOREMS = ["C13_empty_equiv", "C13_named_equiv", "C13_filtered_ids", "C13_prune_empty_spec", "C13_prune_named_spec",
             "C13_root_kept", "C13_export_once", "C13_export_closed", "C13_export_ids", "C13_export_complete",
-            "C13_export_dirs", "C13_export_contents", "C13_export_skipped", "C13_skipped_iff", "C13_skip_same_ids",
+            "C13_export_dirs", "C13_prune_gen_instances", "C13_export_contents", "C13_export_skipped", "C13_skipped_iff", "C13_skip_same_ids",
             "C13_symlink_limit", "C13_satisfiable"]
 RULE = ("random file-system trees (depth <= 5, <= 60 nodes, files 0..100 bytes plus a couple of 1000-3000 byte ones) "
         "materialised in a temporary directory, seeded with: chains of directories that are empty only recursively, "
@@ -211,7 +211,7 @@ FIXED = [
 
 
 def gen(rng, tier):
-    n = 70 if tier == "quick" else 2500
+    n = 600 if tier == "quick" else 12000
     cases = [copy.deepcopy(c) for c in FIXED]
     for k in range(n):
         t = gen_case_tree(rng, big=(k % 30 == 7))
